@@ -116,9 +116,17 @@ func init() {
 		// independent reference for the layout: the standard library's colour at the same coordinates (16-bit channels; the
 		// portable conversion works on the same scale without clamping, so only in-gamut pixels are compared)
 		indep := 0.0
-		if a[0] == "32" {
+		{
 			ref := make([]float32, n)
-			transforms32.VerifYCbCrToGrayGo(img, ref)
+			if a[0] == "32" {
+				transforms32.VerifYCbCrToGrayGo(img, ref)
+			} else {
+				r64 := make([]float64, n)
+				transforms.PixelYCnCRGray(img, r64)
+				for i := range r64 {
+					ref[i] = float32(r64[i])
+				}
+			}
 			for y := 0; y < w; y++ {
 				for x := 0; x < w; x++ {
 					r, g, b, _ := img.At(minX+x, minY+y).RGBA()
